@@ -40,6 +40,7 @@ class World:
         self.refuse = False
         self.log = []
         self.drain_once = {"I": None, "A": None}     # one-shot exception for the next drain() of that side
+        self.drain_call = {"I": None, "A": None}     # async callable(side) awaited inside every successful drain() of that side
         self.writer_hook = None          # callable(side, writer): lets a check add fault points to a new writer
         self.last_delivered = {"I": None, "A": None}
 
@@ -61,6 +62,9 @@ class World:
             f = link.drain_fault[side]
             if f is not None and not link.up:
                 raise f
+            call = self.drain_call.get(side)
+            if call is not None:            # a check's own suspension point: lets another task of that side run here
+                await call(side)
         w.drain_hook = drain_hook
 
         def on_close():
